@@ -1,0 +1,124 @@
+//! Verification hooks: an append-only event sink. Compiled only with
+//! `--cfg compio_verif`; nothing here exists in normal builds.
+//!
+//! Events are stamped with a global sequence number so that a harness can merge them
+//! with its own observations (it draws its stamps from [`next_seq`] too).
+
+use std::{
+    cell::RefCell,
+    sync::{
+        Mutex,
+        atomic::{AtomicU64, Ordering},
+    },
+};
+
+/// What happened to an operation (identified by the id of its storage).
+#[derive(Debug, Clone, Copy, PartialEq, Eq)]
+pub enum Kind {
+    /// operation storage (control data + buffer) allocated
+    Alloc,
+    /// operation storage freed
+    Free,
+    /// handed to the OS (SQE pushed / descriptor registered with the poller)
+    Submit,
+    /// handed to the blocking thread pool
+    PoolSubmit,
+    /// a pool thread starts running it
+    PoolEnter,
+    /// the pool thread is done with it
+    PoolLeave,
+    /// an intermediate (multishot "more") completion
+    Multi,
+    /// the final completion was delivered to the operation
+    Final,
+    /// the io_uring descriptor has been closed (`id` = 0)
+    RingClosed,
+}
+
+/// One event.
+#[derive(Debug, Clone, Copy, PartialEq, Eq)]
+pub struct Event {
+    /// global sequence number
+    pub seq: u64,
+    /// what happened
+    pub kind: Kind,
+    /// operation id (see [`OpGuard`])
+    pub id: u64,
+}
+
+static SEQ: AtomicU64 = AtomicU64::new(1);
+static NEXT_ID: AtomicU64 = AtomicU64::new(1);
+/// events logged by pool threads
+static POOL_LOG: Mutex<Vec<Event>> = Mutex::new(Vec::new());
+
+thread_local! {
+    static LOG: RefCell<Vec<Event>> = const { RefCell::new(Vec::new()) };
+}
+
+/// Next global sequence number.
+pub fn next_seq() -> u64 {
+    SEQ.fetch_add(1, Ordering::SeqCst)
+}
+
+/// Log an event of the current (driver) thread.
+pub fn log(kind: Kind, id: u64) {
+    let e = Event {
+        seq: next_seq(),
+        kind,
+        id,
+    };
+    if LOG.try_with(|l| l.borrow_mut().push(e)).is_err() {
+        // thread is being torn down: keep the event anyway
+        POOL_LOG.lock().unwrap().push(e);
+    }
+}
+
+/// Log an event from a pool thread.
+pub fn log_pool(kind: Kind, id: u64) {
+    let e = Event {
+        seq: next_seq(),
+        kind,
+        id,
+    };
+    POOL_LOG.lock().unwrap().push(e);
+}
+
+/// Take the events logged by the current thread.
+pub fn take() -> Vec<Event> {
+    LOG.with(|l| std::mem::take(&mut *l.borrow_mut()))
+}
+
+/// Take the events logged by pool threads whose id satisfies `f`.
+pub fn take_pool(mut f: impl FnMut(u64) -> bool) -> Vec<Event> {
+    let mut g = POOL_LOG.lock().unwrap();
+    let (mine, rest): (Vec<_>, Vec<_>) = g.drain(..).partition(|e| f(e.id));
+    *g = rest;
+    mine
+}
+
+/// Lives inside every operation's storage: logs its allocation and its release.
+#[derive(Debug)]
+pub struct OpGuard {
+    id: u64,
+}
+
+impl OpGuard {
+    /// A new guard with a fresh id.
+    #[allow(clippy::new_without_default)]
+    pub fn new() -> Self {
+        let id = NEXT_ID.fetch_add(1, Ordering::SeqCst);
+        log(Kind::Alloc, id);
+        Self { id }
+    }
+
+    /// The operation id.
+    pub fn id(&self) -> u64 {
+        self.id
+    }
+}
+
+impl Drop for OpGuard {
+    fn drop(&mut self) {
+        log(Kind::Free, self.id);
+    }
+}
